@@ -33,7 +33,13 @@ def record_case(args):
     d = common.workdir('mc-' + label)
     try:
         try:
-            inp, r = cases.build(dassh, case, str(d), **opts.get('kw', {}))
+            kw = dict(opts.get('kw', {}))
+            if '_tp' in case:
+                # one time point of an input with several power files: the
+                # model is built the way the driver builds it for that time
+                # point; the input's own integral is that of its k-th file
+                kw['timestep'] = int(case['_tp'])
+            inp, r = cases.build(dassh, case, str(d), **kw)
         except BaseException as e:
             return {'label': label, 'cfg': {'nasm': 1, 'gap': 'none',
                                             'cls': 'const',
@@ -43,7 +49,10 @@ def record_case(args):
                     'meta': {'planes': 0}}
         const = all(drive.is_const_material(a.active_region.coolant)
                     for a in r.assemblies)
-        ob = ledger.LedgerObs(r, const, case)
+        lcase = case
+        if '_tp' in case:
+            lcase = dict(case, power=case['powers'][int(case['_tp'])])
+        ob = ledger.LedgerObs(r, const, lcase)
         crashed = None
         try:
             with drive.Recorder(dassh, r, [ob]) as rec:
